@@ -758,7 +758,7 @@ impl Default for SimConfig {
         SimConfig {
             sched: Tape::from_seed(0),
             aux_seed: 0,
-            max_events: 400_000,
+            max_events: 4_000_000,
             max_time_ns: 6 * 3600 * NS_PER_S,
             trace: false,
         }
